@@ -71,13 +71,16 @@ LEVEL_NOTE = ("Trusted: Lean kernel; the statements in Props/C14.lean including 
               "index table (C14_pe_pass_relabelled); for every network on which the revision is stable, assembling the network "
               "with its unused points and emptied clusters removed gives the same m, n, rows, rhs, cofactor blocks, hence the "
               "same netSolve answer for every algorithm (C14_pe_inner_call_equals_physical_deletion; no hypothesis on role "
-              "slots: the regenerated member functions do not read the slots their class does not use); and the WHOLE call "
-              "project_equations() on the physically deleted network is one inner call with the same singular_coords verdict, "
-              "min_n_, min_x_ and the same answer of every algorithm (C14_pe_solution_equals_physical_deletion_partial) UNDER "
-              "THE HYPOTHESIS that the revision is stable on the physically deleted network (isRevised under the renaming: not "
-              "proved); the unknowns_ table under the relabelling is not compared.  There the oracle (gama-local on the file "
-              "with the elements deleted) is the evidence.  A removed point left in the file as free costs a second inner call "
-              "(evaluated example corFree, same answers).")
+              "slots: the regenerated member functions do not read the slots their class does not use); the revision is stable "
+              "on the physically deleted network (C14_pe_revision_stable_physical); and the WHOLE call from an arbitrary "
+              "network: if project_equations() succeeds, then on the input with the observations it left passive deleted and "
+              "the then-unused points and emptied clusters physically removed (positions renamed, arbitrary stale indexes) it "
+              "succeeds in one inner call with the same singular_coords verdict, min_n_, min_x_, removes nothing, and every "
+              "algorithm returns the same exception or the same answer field by field "
+              "(C14_pe_solution_equals_physical_deletion, no hypothesis).  NOT in that statement: the unknowns_ table (it is the "
+              "table with the stand-point cluster numbers relabelled; not proved) — there and for a removed point left in the "
+              "file as free (second inner call; evaluated example corFree, same answers) the oracle (gama-local on the file "
+              "with the elements deleted) is the evidence.")
 TECHNIQUE = "Lean 4 proof over a model partly regenerated from the source (translator) + model/implementation correspondence + end-to-end oracle"
 TRUSTED = ["tools/gen/c14_revision.py: regex/mini-parser translator of local_revision.{h,cpp}, TestAbsTermVisitor and the "
            "StandPoint loop of revision_observations (interpreter TStmt.run / TCond.eval in Model/ReviseTypes.lean: std::set as a "
